@@ -353,6 +353,12 @@ Definition prog_decode_yuv (fx : fixes) (merged : bool) : prog :=
            (EIte (EEq (EG (D "num_components")) (EC 1)) (EC 1)
                  (EIte (EG (D "saw_JFIF_marker")) (EC 3)
                        (EIte (EG (D "saw_Adobe_marker")) (EIte (EEq (EG (D "Adobe_transform")) (EC 0)) (EC 2) (EC 3)) (EC 3)))) ;;
+      (* an Adobe transform code other than 0 / 1 makes it warn (JWRN_ADOBE_XFORM): the call then returns -1 *)
+      CObs "adobe_transform_warning"
+           (EAnd (ENe (EG (D "num_components")) (EC 1))
+                 (EAnd (ENot (EG (D "saw_JFIF_marker")))
+                       (EAnd (EG (D "saw_Adobe_marker"))
+                             (EAnd (ENe (EG (D "Adobe_transform")) (EC 0)) (ENe (EG (D "Adobe_transform")) (EC 1)))))) ;;
       CSet (D "out_color_space") (EA "pf") ;; CSet (D "dct_method") (P "fastDCT") ;; CSet (D "do_fancy_upsampling") (EC 0) ;;
       CSet (D "Se") (EC 63) ;;
       (* initial_setup and master_selection branch on master->lossless, which only get_sof assigns *)
